@@ -1,8 +1,9 @@
 (* C05/Property.v — property theorems only. *)
 From Coq Require Import ZArith Bool List String.
-From Verif Require Import Base.Str Base.Py C05.Model C05.Spec C05.Proofs C05.Source C05.Time C05.TimeProofs.
+From Verif Require Import Base.Str Base.Py Base.Py2 C05.Model C05.Spec C05.Proofs C05.Source C05.Source2 C05.Time C05.TimeProofs.
 From Verif Require C13.Lex.
-From VerifGen Require Import C05Src.
+From VerifGen Require Import C05Src C05Src2 C05Src2v.
+Import ListNotations.
 Open Scope Z_scope.
 
 (* C05: for every placement of the six timestamps, every skew setting and every clock value after
@@ -63,3 +64,162 @@ Theorem c05_text_is_a_date : forall s y m d h mi sec,
   (1 <= y /\ 1 <= m /\ m <= 12 /\ 1 <= d /\ d <= Time.dim (Time.leap y) m /\ h <= 23 /\ mi <= 59 /\ sec <= 61)%N.
 Proof. exact strptime_is_a_date. Qed.
 Print Assumptions c05_text_is_a_date.
+
+Open Scope string_scope.
+Open Scope list_scope.
+Open Scope Z_scope.
+
+(* ---- source tie, translator v2 (harness/py2coq2.py + Base/Py2.v; coq/gen/C05Src2.v, C05Src2v.v re-translated
+   from /repo's current source on this run; proofs in C05/Source2.v).  Each translated function, applied to the
+   encoding of the model's input, yields the encoding of the model's output — for ALL inputs.  The clock, the
+   time-stamp readers, datetime arithmetic and the calls that leave the anchored code are parameters with the
+   stated hypotheses (shown satisfiable in Source2.v: clock_instance, condition_ok_instance, ...); the three
+   methods call the TRANSLATED validate_* / later_than. *)
+Theorem c05_source2_validate_on_or_after :
+  forall (text_of : stamp -> String.string) (to_secs : pyval -> pyval),
+  (forall s, is_empty (text_of s) = false) -> (forall s, to_secs (PStr (text_of s)) = PInt (str_to_time s)) ->
+  forall now slack b,
+    src2_validate_on_or_after (PInt now) to_secs (enc_ts text_of b) (PInt slack)
+    = enc_voa2 b (validate_on_or_after now slack b).
+Proof. exact src2_validate_on_or_after_is_model. Qed.
+Print Assumptions c05_source2_validate_on_or_after.
+
+Theorem c05_source2_validate_before :
+  forall (text_of : stamp -> String.string) (to_secs : pyval -> pyval),
+  (forall s, is_empty (text_of s) = false) -> (forall s, to_secs (PStr (text_of s)) = PInt (str_to_time s)) ->
+  forall now slack b,
+    src2_validate_before (PInt now) to_secs (enc_ts text_of b) (PInt slack)
+    = if validate_before now slack b then PBool true else PExc "ToEarly".
+Proof. exact src2_validate_before_is_model. Qed.
+Print Assumptions c05_source2_validate_before.
+
+Theorem c05_source2_later_than :
+  forall (text_of : stamp -> String.string) (parse gmtime : pyval -> pyval) (kgm : Z -> Z),
+  (forall s, parse (PStr (text_of s)) = PInt (kgm (str_to_time s))) ->
+  (forall a b, (kgm a >=? kgm b) = (a >=? b)) ->
+  forall a b,
+    src2_later_than parse gmtime (enc_ts text_of a) (enc_ts text_of b) = PBool (later_than a b).
+Proof. exact src2_later_than_is_model. Qed.
+Print Assumptions c05_source2_later_than.
+
+(* skew plumbing: the factory hands the constructor timeslack = Model.timeslack (accepted_time_diff) unless the
+   caller gave a non-zero one *)
+Theorem c05_source2_authn_response :
+  forall security_context int_ : pyval -> pyval,
+  (forall c, is_bad (security_context c) = false) ->
+  int_ PNone = PExc "TypeError" -> (forall z, int_ (PInt z) = PInt z) ->
+  forall (atd : option Z) (eid : String.string) (ts : Z) (ra oq ah au was ci : pyval),
+  is_bad ra = false -> is_bad oq = false -> is_bad ah = false -> is_bad au = false -> is_bad was = false ->
+  is_bad ci = false ->
+  src2_authn_response security_context int_ (enc_conf atd eid) ra oq (PInt ts) ah au was ci
+  = PObj [("arg0", security_context (enc_conf atd eid)); ("arg1", PList nil); ("arg2", PStr eid); ("arg3", ra);
+          ("arg4", oq); ("arg5", PInt (if ts =? 0 then timeslack atd else ts)); ("asynchop", ah);
+          ("allow_unsolicited", au); ("want_assertions_signed", was); ("conv_info", ci)].
+Proof. exact src2_authn_response_is_model. Qed.
+Print Assumptions c05_source2_authn_response.
+
+Theorem c05_source2_issue_instant_ok :
+  forall (text_of : stamp -> String.string) (parse : pyval -> pyval) (kgm : Z -> Z) (aud : pyval),
+  (forall s, parse (PStr (text_of s)) = PInt (kgm (str_to_time s))) ->
+  forall (now : Z) (in_a_while a_while_ago timetuple : pyval -> pyval) (shift_time : pyval -> pyval -> pyval)
+         (ktt : Z -> Z),
+  (forall d, in_a_while (PInt d) = PInt (now + 86400 * d)) ->
+  (forall d, a_while_ago (PInt d) = PInt (now - 86400 * d)) ->
+  (forall t d, shift_time (PInt t) (PInt d) = PInt (t + d)) ->
+  (forall t, timetuple (PInt t) = PInt (ktt t)) ->
+  (forall a b, (ktt a <? kgm b) = (a <=? b)) -> (forall a b, (kgm a <? ktt b) = (a <? b)) ->
+  forall r : self_,
+    src2_issue_instant_ok in_a_while a_while_ago shift_time timetuple parse (enc_self text_of aud r)
+    = PBool (issue_instant_ok now (f_slack r) (f_issue r)).
+Proof. exact src2_issue_instant_ok_is_model. Qed.
+Print Assumptions c05_source2_issue_instant_ok.
+
+Theorem c05_source2_authn_statement_ok :
+  forall (text_of : stamp -> String.string) (to_secs : pyval -> pyval) (aud : pyval),
+  (forall s, is_empty (text_of s) = false) -> (forall s, to_secs (PStr (text_of s)) = PInt (str_to_time s)) ->
+  forall (now : Z) (r : self_) (optional : bool),
+    src2_authn_statement_ok (PInt now) to_secs (enc_self text_of aud r) (PBool optional)
+    = let p := m_authn_statement_ok now (f_slack r) optional (f_statements r) (f_session r) in
+      enc_result text_of aud (fst p, with_session r (snd p)).
+Proof. exact src2_authn_statement_ok_is_model. Qed.
+Print Assumptions c05_source2_authn_statement_ok.
+
+Theorem c05_source2_condition_ok :
+  forall (text_of : stamp -> String.string) (to_secs parse gmtime : pyval -> pyval) (kgm : Z -> Z) (aud : pyval),
+  (forall s, is_empty (text_of s) = false) -> (forall s, to_secs (PStr (text_of s)) = PInt (str_to_time s)) ->
+  (forall s, parse (PStr (text_of s)) = PInt (kgm (str_to_time s))) ->
+  (forall a b, (kgm a >=? kgm b) = (a >=? b)) ->
+  forall (keyswv : pyval -> pyval) (for_me : pyval -> pyval -> pyval) (xsi_type : pyval) (fm : bool),
+  (forall a b, keyswv (enc_conditions text_of aud a b) = PList (map PStr (cond_keys a b))) ->
+  (forall a b eid, for_me (enc_conditions text_of aud a b) (PStr eid) = PBool fm) ->
+  forall (now : Z) (r : self_) (lax : bool) (a b : option stamp),
+  f_conditions r = Some (a, b) ->
+    src2_condition_ok (PInt now) to_secs parse gmtime keyswv for_me xsi_type (enc_self text_of aud r) (PBool lax)
+    = let p := m_condition_ok now (f_slack r) lax (f_test r) fm a b (f_nooa r) in
+      enc_result text_of aud (fst p, with_nooa r (snd p)).
+Proof. exact src2_condition_ok_is_model. Qed.
+Print Assumptions c05_source2_condition_ok.
+
+Theorem c05_source2_condition_ok_no_conditions :
+  forall (text_of : stamp -> String.string) (to_secs parse gmtime : pyval -> pyval) (aud : pyval)
+         (keyswv : pyval -> pyval) (for_me : pyval -> pyval -> pyval) (xsi_type : pyval) (now : Z) (r : self_)
+         (lax : bool),
+  f_conditions r = None ->
+    src2_condition_ok (PInt now) to_secs parse gmtime keyswv for_me xsi_type (enc_self text_of aud r) (PBool lax)
+    = enc_result text_of aud (ORet true, r).
+Proof. exact src2_condition_ok_no_conditions. Qed.
+Print Assumptions c05_source2_condition_ok_no_conditions.
+
+Theorem c05_source2_bearer_confirmed :
+  forall (text_of : stamp -> String.string) (to_secs parse gmtime : pyval -> pyval) (kgm : Z -> Z) (aud : pyval),
+  (forall s, is_empty (text_of s) = false) -> (forall s, to_secs (PStr (text_of s)) = PInt (str_to_time s)) ->
+  (forall s, parse (PStr (text_of s)) = PInt (kgm (str_to_time s))) ->
+  (forall a b, (kgm a >=? kgm b) = (a >=? b)) ->
+  forall (valid_address : pyval -> pyval) (now : Z) (r : self_) (snb snooa : option stamp) (irt : pyval),
+  f_asynchop r = false ->
+    src2_bearer_confirmed (PInt now) to_secs parse gmtime valid_address (enc_self text_of aud r)
+      (enc_data text_of snb snooa irt)
+    = enc_result text_of aud (m_bearer_window now (f_slack r) snb snooa, r).
+Proof. exact src2_bearer_confirmed_is_model. Qed.
+Print Assumptions c05_source2_bearer_confirmed.
+
+Theorem c05_source2_bearer_confirmed_async :
+  forall (text_of : stamp -> String.string) (to_secs parse gmtime : pyval -> pyval) (kgm : Z -> Z) (aud : pyval),
+  (forall s, is_empty (text_of s) = false) -> (forall s, to_secs (PStr (text_of s)) = PInt (str_to_time s)) ->
+  (forall s, parse (PStr (text_of s)) = PInt (kgm (str_to_time s))) ->
+  (forall a b, (kgm a >=? kgm b) = (a >=? b)) ->
+  forall (valid_address : pyval -> pyval) (now : Z) (r : self_) (snb snooa : option stamp) (irt cf : String.string),
+  f_asynchop r = true -> f_irt r = PStr irt -> f_outstanding r = PObj ((irt, PStr cf) :: nil) ->
+  f_came_from r = PNone -> is_empty irt = false -> String.eqb irt "__class__" = false ->
+    src2_bearer_confirmed (PInt now) to_secs parse gmtime valid_address (enc_self text_of aud r)
+      (enc_data text_of snb snooa (PStr irt))
+    = let o := m_bearer_window now (f_slack r) snb snooa in
+      enc_result text_of aud (o, match o with ORet true => with_came_from r (PStr cf) | _ => r end).
+Proof. exact src2_bearer_confirmed_async_is_model. Qed.
+Print Assumptions c05_source2_bearer_confirmed_async.
+
+Theorem c05_source2_session_info :
+  forall (text_of : stamp -> String.string) (aud : pyval) (issuer authz_decision_info authn_info : pyval -> pyval),
+  (forall v, is_bad (issuer v) = false) -> (forall v, is_bad (authz_decision_info v) = false) ->
+  (forall v, is_bad (authn_info v) = false) ->
+  forall r : self_,
+  is_bad (f_name_id r) = false -> is_bad (f_ava r) = false -> is_bad (f_came_from r) = false ->
+    src2_session_info issuer authz_decision_info authn_info (enc_self text_of aud r)
+    = (let nooa := PInt (m_reported (f_session r) (f_nooa r)) in
+       if String.eqb (f_context r) "AuthzQuery"
+       then PObj [("name_id", f_name_id r); ("came_from", f_came_from r); ("issuer", issuer (enc_self text_of aud r));
+                  ("not_on_or_after", nooa); ("authz_decision_info", authz_decision_info (enc_self text_of aud r))]
+       else match f_statements r with
+            | nil => PExc "StatusInvalidAuthnResponseStatement"
+            | cons _ _ => PObj [("ava", f_ava r); ("name_id", f_name_id r); ("came_from", f_came_from r);
+                                ("issuer", issuer (enc_self text_of aud r)); ("not_on_or_after", nooa);
+                                ("authn_info", authn_info (enc_self text_of aud r)); ("session_index", PStr "s-1")]
+            end).
+Proof. exact src2_session_info_is_model. Qed.
+Print Assumptions c05_source2_session_info.
+
+(* the stages that the four methods were proved equal to ARE Model.accept (every SessionNotOnOrAfter after 1970) *)
+Theorem c05_source2_accept_by_parts : forall x,
+  (forall s, sess (t x) = Some s -> str_to_time s <> 0) -> accept x = accept_by_parts x.
+Proof. exact accept_is_by_parts. Qed.
+Print Assumptions c05_source2_accept_by_parts.
